@@ -2,6 +2,7 @@
 import seqcheck
 import draincheck
 import wrcheck
+import loadcheck
 
 CHECKS = {}
 META = {}
@@ -61,3 +62,19 @@ for _p in ("C04", "C05", "C06"):
     }
 ENGINES.append({"name": "write-replay", "path": "tools/wrcheck.py", "serves_properties": ["C04", "C05", "C06"],
                 "kind_free_text": "TLC on spec/WriteReplay.tla; harness/otter/verif_wr_test.go (gate scheduler + audit); spec/WRAudit.tla judges audit records"})
+
+_LD_TEXT = {
+    "C08": "loader runs for one key never overlap unless the key was written/invalidated/evicted in between, every Get/BulkGet/Refresh returns for every loader outcome, no in-flight record is left behind and a later Get loads afresh (LoadRace.tla: NoOverlap, Returned, CleanTable, Terminates; real cache: LoadHist.tla over gate-scheduled histories; sequential leak audit in the fold traces)",
+    "C09": "a load result is installed only if no explicit write to the key completed between the load's start and its installation; the last explicit write wins (LoadRace.tla: NoStaleInstall; real cache: LoadHist.tla)",
+}
+for _p in ("C08", "C09"):
+    CHECKS[_p] = loadcheck.run
+    META[_p] = {
+        "engine": "load-race",
+        "text": _LD_TEXT[_p],
+        "design_ref": "DESIGN.md section 6 (%s), section 3.2 B2" % _p,
+        "note": "bounded model (2-3 getters, 1-2 refreshers, 1-2 writers, one key); real runs serialised at hook granularity with the scripted loader as a gate",
+        "technique": "TLA+/PlusCal spec (LoadRace.tla) model-checked with TLC + gate-scheduled runs of the real cache whose histories are judged by a TLA+ trace spec (LoadHist.tla)",
+    }
+ENGINES.append({"name": "load-race", "path": "tools/loadcheck.py", "serves_properties": ["C08", "C09"],
+                "kind_free_text": "TLC on spec/LoadRace.tla; harness/otter/verif_load_test.go; spec/LoadHist.tla judges histories"})
